@@ -1618,6 +1618,110 @@ func knownOpen(matcher string) bool {
 	return false
 }
 
+// binLengthsSane walks the binary framing (an independent reading of the format)
+// and reports false when a length prefix exceeds the bytes that remain.
+func binLengthsSane(b []byte) bool {
+	take := func(n int) bool {
+		if n > len(b) {
+			b = nil
+			return false
+		}
+		b = b[n:]
+		return true
+	}
+	str := func() (string, bool, bool) { // value, ok (enough bytes), sane
+		if len(b) < 4 {
+			b = nil
+			return "", false, true
+		}
+		l := int(uint32(b[0])<<24 | uint32(b[1])<<16 | uint32(b[2])<<8 | uint32(b[3]))
+		b = b[4:]
+		if l > len(b) {
+			return "", false, false
+		}
+		s := string(b[:l])
+		b = b[l:]
+		return s, true, true
+	}
+	for len(b) > 0 {
+		if len(b) < 10 {
+			return true
+		}
+		version := uint16(b[0])<<8 | uint16(b[1])
+		b = b[10:]
+		typ, ok, sane := str()
+		if !sane {
+			return false
+		}
+		if !ok {
+			return true
+		}
+		strs := func(n int) (bool, bool) {
+			for i := 0; i < n; i++ {
+				_, ok, sane := str()
+				if !sane {
+					return false, false
+				}
+				if !ok {
+					return false, true
+				}
+			}
+			return true, true
+		}
+		switch typ {
+		case "LOG":
+			if ok, sane := strs(5); !sane {
+				return false
+			} else if !ok {
+				return true
+			}
+			if !take(4) {
+				return true
+			}
+			n := 0
+			if version >= 3 {
+				n = 2
+			}
+			if version <= 1 {
+				n += 2
+			} else {
+				n += 5
+			}
+			if ok, sane := strs(n); !sane {
+				return false
+			} else if !ok {
+				return true
+			}
+			if version >= 2 {
+				if !take(4) {
+					return true
+				}
+				if ok, sane := strs(3); !sane {
+					return false
+				} else if !ok {
+					return true
+				}
+				if !take(8) {
+					return true
+				}
+			}
+		case "GROUNDING":
+			if ok, sane := strs(1); !sane {
+				return false
+			} else if !ok {
+				return true
+			}
+			if !take(64 + 4627) {
+				return true
+			}
+		}
+		if !take(64 + 64 + 64) {
+			return true
+		}
+	}
+	return true
+}
+
 // FuzzC27: byte-level mutation of an encoded log. Only the seed logs were ever
 // signed with the process keys, so every prefix of entries that the decoder
 // yields and the Validator (both verifiers) accepts must be, field by field, a
@@ -1647,6 +1751,12 @@ func FuzzC27(f *testing.F) {
 	ignoreSrc := knownOpen(matcherSource)
 	f.Fuzz(func(t *testing.T, data []byte, which uint8) {
 		ser := serializerFor([]string{"bin", "json", "jsonindent"}[int(which)%3])
+		if int(which)%3 == 0 && !binLengthsSane(data) {
+			// a length prefix points beyond the end of the input: the real decoder
+			// fails with an unexpected EOF - after allocating that many bytes (up
+			// to 4 GiB), which a fuzz worker cannot afford. Rejected either way.
+			return
+		}
 		dec := ser.NewDecoder(bytes.NewReader(data))
 		v := auditlog.NewValidator(edVerifier, mlVerifier)
 		for i := 0; ; i++ {
